@@ -871,3 +871,107 @@ func TestC15Files(t *testing.T) {
 }
 
 func init() { reg("C15.fs", checkC15FS) }
+
+// ---- many names; names that are not there ---------------------------------------------------------------
+
+type C15ManyCase struct {
+	Names int `json:"names"`
+}
+
+// checkC15Many: N registered names and N loader-served names on one engine (cache on, auto-reload
+// off). Every registered name keeps rendering what was registered; every cached loader name keeps
+// its first version although the loader's content changes afterwards.
+func checkC15Many(c C15ManyCase) error {
+	e := twig.New()
+	l := newC15Loader()
+	e.RegisterLoader(l)
+	for i := 0; i < c.Names; i++ {
+		if err := e.RegisterString(fmt.Sprintf("reg%d", i), fmt.Sprintf("R%d", i)); err != nil {
+			return fmt.Errorf("RegisterString failed: %v", err)
+		}
+		l.items[fmt.Sprintf("ld%d", i)] = c15Entry{version: i, ts: 1}
+	}
+	for i := 0; i < c.Names; i++ {
+		if r := render(e, fmt.Sprintf("ld%d", i), nil); r.Failed() || r.Out != fmt.Sprintf("v%d", i) {
+			return fmt.Errorf("first read of loader name %d of %d: %v", i, c.Names, r)
+		}
+	}
+	for i := 0; i < c.Names; i++ {
+		l.items[fmt.Sprintf("ld%d", i)] = c15Entry{version: 1000000 + i, ts: 2}
+	}
+	for i := 0; i < c.Names; i++ {
+		if r := render(e, fmt.Sprintf("reg%d", i), nil); r.Failed() || r.Out != fmt.Sprintf("R%d", i) {
+			return fmt.Errorf("with %d registered and %d cached names on the engine, registered name reg%d renders %v, want %q", c.Names, c.Names, i, r, fmt.Sprintf("R%d", i))
+		}
+		if r := render(e, fmt.Sprintf("ld%d", i), nil); r.Failed() || r.Out != fmt.Sprintf("v%d", i) {
+			return fmt.Errorf("with %d registered and %d cached names on the engine (auto-reload off), cached name ld%d renders %v after its loader changed, want the cached %q", c.Names, c.Names, i, r, fmt.Sprintf("v%d", i))
+		}
+	}
+	return nil
+}
+
+type C15AbsentCase struct {
+	Name BStr `json:"name"`
+}
+
+// checkC15Absent: a file-system loader over a directory that holds a.twig and sub/b.twig; names that
+// no file answers to (blanks around a name, paths that leave the directory) are not found, and the
+// failed lookup leaves the cache as it was.
+func checkC15Absent(c C15AbsentCase) error {
+	base, err := os.MkdirTemp(workDir(), "c15abs-")
+	if err != nil {
+		return fmt.Errorf("harness: %v", err)
+	}
+	defer os.RemoveAll(base)
+	root := filepath.Join(base, "outer", "root")
+	os.MkdirAll(filepath.Join(root, "sub"), 0o755)
+	os.WriteFile(filepath.Join(root, "a.twig"), []byte("A"), 0o644)
+	os.WriteFile(filepath.Join(root, "sub", "b.twig"), []byte("B"), 0o644)
+	e := twig.New()
+	e.RegisterLoader(twig.NewFileSystemLoader([]string{root}))
+	if r := render(e, "a", nil); r.Failed() || r.Out != "A" {
+		return fmt.Errorf("harness: %v", r)
+	}
+	before := e.GetCachedTemplateCount()
+	for round := 0; round < 2; round++ {
+		r := render(e, string(c.Name), nil)
+		if r.Panic != "" {
+			return fmt.Errorf("panic: %s", r.Panic)
+		}
+		if r.Err == "" {
+			return fmt.Errorf("the name %s has no file under the search path but renders %s", q(string(c.Name)), q(r.Out))
+		}
+		if !errors.Is(r.Error(), twig.ErrTemplateNotFound) {
+			return fmt.Errorf("the name %s has no file under the search path: the error does not match ErrTemplateNotFound: %s", q(string(c.Name)), firstLine(r.Err))
+		}
+		if n := e.GetCachedTemplateCount(); n != before {
+			return fmt.Errorf("the failed lookup of %s changed the number of cached templates from %d to %d", q(string(c.Name)), before, n)
+		}
+	}
+	return nil
+}
+
+func TestC15Scale(t *testing.T) {
+	r := NewRec(t, "C15", "exhaustive: engines holding 100 / 1000 / 1100 / 2500 registered plus as many cached loader names (every one re-read after the loaders changed); 16 names a file-system loader has no file for (blanks around a name, paths leaving the search path, doubled suffix, empty segments), each looked up twice; non-trivial = more than 1000 names or an absent name")
+	defer r.Flush()
+	r.SetExhaustive()
+	for _, n := range []int{100, 1000, 1100, 2500} {
+		c := C15ManyCase{Names: n}
+		r.Case(fmt.Sprint("many", n), n > 1000, c)
+		if err := checkC15Many(c); err != nil {
+			r.FailEnum(t, "C15.many", c, err)
+		}
+	}
+	for _, name := range []string{"../a", "../../a", "../root2/a", "sub/../../a", "sub/../../../a", " a", "a ", "a\t", "\na", " sub/b", "sub/b ", "sub/ b", "a.twig.twig", "sub//../../a", "../outer/a", "nope"} {
+		c := C15AbsentCase{Name: BStr(name)}
+		r.Case("absent"+name, true, q(name))
+		if err := checkC15Absent(c); err != nil {
+			r.FailEnum(t, "C15.absent", c, err)
+		}
+	}
+}
+
+func init() {
+	reg("C15.many", checkC15Many)
+	reg("C15.absent", checkC15Absent)
+}
